@@ -16,7 +16,20 @@ def simulate(s):
     """run the real simulator on a scenario; returns {'rows':..} | {'err':..} | {'exc':..}"""
     w = common.import_wntr()
     try:
-        wn = simnet.build(w, s)
+        pre = s.get("prehist_vcurve")          # history: a first run with other volume-curve points, then edit, reset, rerun
+        if pre:
+            s0 = copy.deepcopy(s)
+            for n in s0["nodes"]:
+                if n["name"] in pre:
+                    n["vcurve"] = pre[n["name"]]
+            wn = simnet.build(w, s0)
+            simnet.run_wntr(w, wn, HW_approx=s["hw"])
+            for n in s["nodes"]:
+                if n["name"] in pre:
+                    wn.get_curve(n["name"] + "_vol").points = [tuple(p) for p in n["vcurve"]]
+            wn.reset_initial_values()
+        else:
+            wn = simnet.build(w, s)
         res, warns = simnet.run_wntr(w, wn, HW_approx=s["hw"])
     except Exception as e:
         return {"exc": "%s: %s" % (type(e).__name__, str(e)[:160])}
